@@ -1,11 +1,12 @@
 """Registry: which parts make up each property's check (see DESIGN.md section 4)."""
-from vlib import GoBin, GoTest, McPart
+from vlib import GoBin, GoTest, McPart, RwTest
 
 MC = 'github.com/whawty/auth/internal/verifmc'
 AGENT_RW = {'imports': {
     'store.go': {'net/http': MC + '/vhttp', 'os/signal': MC + '/vsignal', 'time': MC + '/vtime'},
     'hooks.go': {'os/exec': MC + '/vexec', 'time': MC + '/vtime'},
     '*': {'time': MC + '/vtime'}}}
+AGENT_SEQ = {'only_imports': True, 'imports': {'web_session.go': {'time': MC + '/vtime'}}}
 
 
 ENGINES = [
@@ -59,6 +60,14 @@ CHECKS = {
         'text': 'Check and Init are compared with reference predicates on every enumerated directory; every operation from every reachable model state keeps the store valid, one file per user and an empty work area (C01 search re-run with the validity observers); every CLI command refuses invalid directories with status 3.',
         'note': 'Directory entries are built from two valid names and three content classes; invalid names belong to C03.',
         'parts': [GoBin('dirs', 'harness/c16', agent=True), GoBin('histories', 'harness/c01', env={'VERIF_AS': 'C16'})],
+    },
+    'C07': {
+        'level': 'exploration',
+        'engine': 'seqx',
+        'technique': 'exhaustive neighbourhood enumeration around issued tokens (all single-bit flips, single-character edits, splices, truncations, chosen plaintexts, ages) under a virtual clock',
+        'text': 'Every presentation of the enumeration is checked on the real session factory: acceptance must be explained by the decoded content of a token this instance issued within its lifetime and must return exactly its identity; every issued token is accepted inside its lifetime.',
+        'note': 'Forgery resistance is covered as the complete 1-edit neighbourhood of issued tokens, not as a cryptographic proof; nonce uniqueness is statistical.',
+        'parts': [RwTest('tokens', 'cmd/whawty-auth', ['harness/agentseq'], AGENT_SEQ, '^TestC07$')],
     },
     'C11': {
         'level': 'model_checking',
